@@ -145,10 +145,13 @@ def do_run(pid, tier, seed):
         print('HARNESS-ERROR: ' + h)
     write_evidence(prop, pid, tier, seed, agg, distinct, samples, wall, checked, len(mism),
                    len(violations), cfg, P, harness_errors)
+    if vio_out:
+        # a reported violation (with its replay file) stands even if the machinery also
+        # complained -- e.g. code that depends on real object addresses breaks the determinism
+        # self-check *because* it violates the property
+        return 1
     if harness_errors:
         return 2
-    if vio_out:
-        return 1
     if agg['runs'] == 0:
         print('HARNESS-ERROR: no runs executed')
         return 2
